@@ -290,7 +290,11 @@ def run(ctx):
             if r3.random() < 0.4:
                 li = r3.randrange(len(lists))
                 edits[str(k)] = [[li, [100 * k + j for j in range(r3.randint(1, 3))]]]
-        ocases.append({"lists": lists, "calls": 3, "edits": edits})
+        assigns = {}
+        for k in (1, 2):
+            if r3.random() < 0.3 and str(k) not in edits:
+                assigns[str(k)] = [[r3.randrange(len(lists)), r3.randint(0, 2), 50 * k + 7]]
+        ocases.append({"lists": lists, "calls": 3, "edits": edits, "assigns": assigns})
     oobs = core.run_impl_parallel(ctx, "c04o_impl.py", ocases, nchunks=4)
     nviews = 0
     for c, o in zip(ocases, oobs):
@@ -298,9 +302,15 @@ def run(ctx):
             core.add_violation(ctx, "library raised on an object with random-size lists of objects: %s" % str(o)[:300], {"case": c, "observed": str(o)[:1500]})
             continue
         pops = [[10 * (i + 1) + j for j in range(l["pop"])] for i, l in enumerate(c["lists"])]      # the tags each list holds
+        fresh = set()
         for k, rec in enumerate(o["calls"]):
             for li, tags in c.get("edits", {}).get(str(k), []):
                 pops[li] = list(tags)
+            for li, j, t in c.get("assigns", {}).get(str(k), []):
+                # (the list exposes a prefix of its population: an assignment beyond the exposed length is not made)
+                if k > 0 and j < len(o["calls"][k - 1]["views"][li]["iter"]) and o["calls"][k - 1]["outcome"] == "ok":
+                    pops[li][j] = t
+                    fresh.add((li, t))
             if rec["outcome"] != "ok":
                 if rec["outcome"] != "SolveFailure":
                     core.add_violation(ctx, "call %d on random-size lists of objects ended with %s" % (k, rec["outcome"]), {"case": c, "observed": rec})
@@ -319,6 +329,8 @@ def run(ctx):
                     bad = "foreach body (a < %d) violated by an exposed element: %s" % (l["foreach"], v["iter"])
                 elif any(e[0] < e[1] for e in v["iter"]):
                     bad = "an exposed element violates its own class constraint a >= b: %s" % (v["iter"],)
+                elif v.get("model_ok") is not True:
+                    bad = "the list's model does not refer to the objects the list exposes (solve, constraints and callbacks go elsewhere): %s" % (v.get("model_ok"),)
                 elif [e[2] for e in v["iter"]] != pops[li][:len(v["iter"])]:
                     bad = "the list exposes the objects tagged %s, it holds (after clear / append) %s" % ([e[2] for e in v["iter"]], pops[li])
                 if bad:
